@@ -1,98 +1,218 @@
 //! Verification hooks; compiled only with `--cfg orx_parallel_verif`.
 //!
-//! * `thread::scope` is a sequential stand-in for `std::thread::scope` with the same
-//!   signatures: every spawned closure runs to completion at its spawn point.
-//!   It is used by `core::runner` only (through a cfg-gated path shadow), so that a
-//!   symbolic-execution engine that cannot run OS threads can execute the runner.
-//! * `on_*` functions are empty observation points; a checker replaces them statically.
+//! * `thread::scope` stands in for `std::thread::scope` inside `core::runner` (through a
+//!   cfg-gated path shadow).  By default it is sequential: every spawned closure runs to
+//!   completion at its spawn point, so that a symbolic-execution engine that cannot run OS
+//!   threads can execute the runner.  With the additional `--cfg orx_parallel_verif_threads`
+//!   it delegates to the real `std::thread::scope` and reports to runtime callbacks, which a
+//!   replay driver uses to put the real threads under a deterministic scheduler.
+//! * `on_*` functions are observation points; empty in the sequential flavour (a checker
+//!   replaces them statically), callback dispatchers in the threaded flavour.
 //! * `api` exposes the crate-private arithmetic of the runner as plain integers.
-
-use core::marker::PhantomData;
 
 /// Address of the concurrent iterator handed to the runner of the computation that
 /// started last (null before the first run).
 pub static mut ITER_PTR: *const u8 = core::ptr::null();
 
-/// Called at the top of `Runner::run`, `Runner::run_map` and `Runner::reduce`.
-#[inline(never)]
-pub fn on_run_begin<I: orx_concurrent_iter::ConcurrentIterX>(iter: &I) {
-    unsafe { ITER_PTR = iter as *const I as *const u8 };
-}
+pub use crate::core::verif_api as api;
 
-/// Called when a thread scope is entered.
-#[inline(never)]
-pub fn on_scope_begin() {}
+#[cfg(not(orx_parallel_verif_threads))]
+pub use seq::*;
+#[cfg(orx_parallel_verif_threads)]
+pub use thr::*;
 
-/// Called when all closures of a thread scope have been joined.
-#[inline(never)]
-pub fn on_scope_end() {}
+#[cfg(not(orx_parallel_verif_threads))]
+mod seq {
+    use super::ITER_PTR;
 
-/// Called by the spawning thread right after it has spawned its last closure.
-#[inline(never)]
-pub fn on_all_spawned() {}
-
-/// Called when a spawned closure starts.
-#[inline(never)]
-pub fn on_task_begin() {}
-
-/// Called when a spawned closure has returned.
-#[inline(never)]
-pub fn on_task_end() {}
-
-/// Sequential stand-in for the part of `std::thread` used by the runner.
-pub mod thread {
-    use super::*;
-
-    /// Stand-in for `std::thread::Scope`.
-    pub struct Scope<'scope, 'env: 'scope> {
-        scope: PhantomData<&'scope mut &'scope ()>,
-        env: PhantomData<&'env mut &'env ()>,
+    /// Called at the top of `Runner::run`, `Runner::run_map` and `Runner::reduce`.
+    #[inline(never)]
+    pub fn on_run_begin<I: orx_concurrent_iter::ConcurrentIterX>(iter: &I) {
+        unsafe { ITER_PTR = iter as *const I as *const u8 };
     }
 
-    /// Stand-in for `std::thread::ScopedJoinHandle`.
-    pub struct ScopedJoinHandle<'scope, T> {
-        result: T,
-        scope: PhantomData<&'scope ()>,
-    }
+    /// Called when a thread scope is entered.
+    #[inline(never)]
+    pub fn on_scope_begin() {}
 
-    /// Stand-in for `std::thread::scope`.
-    pub fn scope<'env, F, T>(f: F) -> T
-    where
-        F: for<'scope> FnOnce(&'scope Scope<'scope, 'env>) -> T,
-    {
-        on_scope_begin();
-        let scope = Scope {
-            scope: PhantomData,
-            env: PhantomData,
-        };
-        let result = f(&scope);
-        on_scope_end();
-        result
-    }
+    /// Called when all closures of a thread scope have been joined.
+    #[inline(never)]
+    pub fn on_scope_end() {}
 
-    impl<'scope> Scope<'scope, '_> {
-        /// Runs `f` to completion and returns a handle holding its result.
-        pub fn spawn<F, T>(&'scope self, f: F) -> ScopedJoinHandle<'scope, T>
+    /// Called by the spawning thread right after it has spawned its last closure.
+    #[inline(never)]
+    pub fn on_all_spawned() {}
+
+    /// Called when a spawned closure starts.
+    #[inline(never)]
+    pub fn on_task_begin() {}
+
+    /// Called when a spawned closure has returned.
+    #[inline(never)]
+    pub fn on_task_end() {}
+
+    /// Sequential stand-in for the part of `std::thread` used by the runner.
+    pub mod thread {
+        use super::*;
+        use core::marker::PhantomData;
+
+        /// Stand-in for `std::thread::Scope`.
+        pub struct Scope<'scope, 'env: 'scope> {
+            scope: PhantomData<&'scope mut &'scope ()>,
+            env: PhantomData<&'env mut &'env ()>,
+        }
+
+        /// Stand-in for `std::thread::ScopedJoinHandle`.
+        pub struct ScopedJoinHandle<'scope, T> {
+            result: T,
+            scope: PhantomData<&'scope ()>,
+        }
+
+        /// Stand-in for `std::thread::scope`.
+        pub fn scope<'env, F, T>(f: F) -> T
         where
-            F: FnOnce() -> T + Send + 'scope,
-            T: Send + 'scope,
+            F: for<'scope> FnOnce(&'scope Scope<'scope, 'env>) -> T,
         {
-            on_task_begin();
-            let result = f();
-            on_task_end();
-            ScopedJoinHandle {
-                result,
+            on_scope_begin();
+            let scope = Scope {
                 scope: PhantomData,
+                env: PhantomData,
+            };
+            let result = f(&scope);
+            on_scope_end();
+            result
+        }
+
+        impl<'scope> Scope<'scope, '_> {
+            /// Runs `f` to completion and returns a handle holding its result.
+            pub fn spawn<F, T>(&'scope self, f: F) -> ScopedJoinHandle<'scope, T>
+            where
+                F: FnOnce() -> T + Send + 'scope,
+                T: Send + 'scope,
+            {
+                on_task_begin();
+                let result = f();
+                on_task_end();
+                ScopedJoinHandle {
+                    result,
+                    scope: PhantomData,
+                }
+            }
+        }
+
+        impl<T> ScopedJoinHandle<'_, T> {
+            /// Returns the result of the closure.
+            pub fn join(self) -> std::thread::Result<T> {
+                Ok(self.result)
             }
         }
     }
+}
 
-    impl<T> ScopedJoinHandle<'_, T> {
-        /// Returns the result of the closure.
-        pub fn join(self) -> std::thread::Result<T> {
-            Ok(self.result)
+#[cfg(orx_parallel_verif_threads)]
+mod thr {
+    use super::ITER_PTR;
+    use std::sync::atomic::{AtomicUsize, Ordering};
+
+    /// Runtime callbacks of the threaded flavour; all default to no-ops.
+    #[derive(Clone, Copy)]
+    pub struct Callbacks {
+        /// a runner starts (called by the spawning thread); argument: source length if known
+        pub run_begin: fn(Option<usize>),
+        /// the thread scope is entered
+        pub scope_begin: fn(),
+        /// the thread scope is left
+        pub scope_end: fn(),
+        /// the spawning thread has created the worker with the given spawn index
+        pub spawned: fn(usize),
+        /// the spawning thread has created its last worker
+        pub all_spawned: fn(),
+        /// the worker with the given spawn index starts (called on the worker thread)
+        pub task_begin: fn(usize),
+        /// the worker with the given spawn index has finished (called on the worker thread)
+        pub task_end: fn(usize),
+    }
+
+    fn nop() {}
+    fn nop1(_: usize) {}
+    fn nop_len(_: Option<usize>) {}
+
+    /// The callbacks in force; set them before starting a computation.
+    pub static mut CALLBACKS: Callbacks = Callbacks {
+        run_begin: nop_len,
+        scope_begin: nop,
+        scope_end: nop,
+        spawned: nop1,
+        all_spawned: nop,
+        task_begin: nop1,
+        task_end: nop1,
+    };
+
+    static SPAWN_INDEX: AtomicUsize = AtomicUsize::new(0);
+
+    /// Called at the top of `Runner::run`, `Runner::run_map` and `Runner::reduce`.
+    pub fn on_run_begin<I: orx_concurrent_iter::ConcurrentIterX>(iter: &I) {
+        unsafe { ITER_PTR = iter as *const I as *const u8 };
+        SPAWN_INDEX.store(0, Ordering::SeqCst);
+        (unsafe { CALLBACKS }.run_begin)(iter.try_get_initial_len());
+    }
+
+    /// Called by the spawning thread right after it has spawned its last closure.
+    pub fn on_all_spawned() {
+        (unsafe { CALLBACKS }.all_spawned)();
+    }
+
+    /// Real threads, observed through `CALLBACKS`.
+    pub mod thread {
+        use super::*;
+
+        /// Wrapper of `std::thread::Scope`.
+        #[repr(transparent)]
+        pub struct Scope<'scope, 'env: 'scope>(std::thread::Scope<'scope, 'env>);
+
+        /// Wrapper of `std::thread::ScopedJoinHandle`.
+        pub struct ScopedJoinHandle<'scope, T>(std::thread::ScopedJoinHandle<'scope, T>);
+
+        /// `std::thread::scope` reporting to the callbacks.
+        pub fn scope<'env, F, T>(f: F) -> T
+        where
+            F: for<'scope> FnOnce(&'scope Scope<'scope, 'env>) -> T,
+        {
+            (unsafe { CALLBACKS }.scope_begin)();
+            let result = std::thread::scope(|s| {
+                // SAFETY: Scope is a transparent wrapper
+                let s: &Scope<'_, 'env> =
+                    unsafe { &*(s as *const std::thread::Scope<'_, 'env> as *const Scope<'_, 'env>) };
+                f(s)
+            });
+            (unsafe { CALLBACKS }.scope_end)();
+            result
+        }
+
+        impl<'scope> Scope<'scope, '_> {
+            /// Spawns `f` on a real scoped thread.
+            pub fn spawn<F, T>(&'scope self, f: F) -> ScopedJoinHandle<'scope, T>
+            where
+                F: FnOnce() -> T + Send + 'scope,
+                T: Send + 'scope,
+            {
+                let index = SPAWN_INDEX.fetch_add(1, Ordering::SeqCst);
+                let handle = self.0.spawn(move || {
+                    (unsafe { CALLBACKS }.task_begin)(index);
+                    let result = f();
+                    (unsafe { CALLBACKS }.task_end)(index);
+                    result
+                });
+                (unsafe { CALLBACKS }.spawned)(index);
+                ScopedJoinHandle(handle)
+            }
+        }
+
+        impl<T> ScopedJoinHandle<'_, T> {
+            /// Joins the thread.
+            pub fn join(self) -> std::thread::Result<T> {
+                self.0.join()
+            }
         }
     }
 }
-
-pub use crate::core::verif_api as api;
